@@ -52,22 +52,36 @@ class Scenario:
         return Scenario(list(self.sites), [dict(imports=list(p["imports"]), annots=list(p["annots"]), trigs=list(p["trigs"])) for p in self.pkgs])
 
 
-def visible_sites(sites, k):
-    return [s for s in sites if s[3] == k or (s[3] < k and s[1])]
+def visible_sites(sites, k, imports=None):
+    """sites a package can mention: its own, and exported sites of the packages it (transitively) imports"""
+    if imports is None:
+        imports = range(k)
+    return [s for s in sites if s[3] == k or (s[3] in imports and s[1])]
 
 
-def gen_random(rng, max_pkgs=3, max_sites=8, max_trigs=9, p_ctrl=0.2, p_annot=0.5):
-    npk = rng.choice([1, 1, 2, 2, 3][:max(1, min(5, 2 * max_pkgs - 1))])
+def gen_random(rng, max_pkgs=5, max_sites=8, max_trigs=9, p_ctrl=0.2, p_annot=0.5):
+    npk = rng.choice([1, 1, 2, 2, 3, 3, 4, 5][:max(1, min(8, 2 * max_pkgs - 1 + (3 if max_pkgs >= 5 else 0)))])
     nsites = rng.randint(2, max_sites)
     sites = []
     for i in range(1, nsites + 1):
         sites.append((i, rng.random() < 0.6, rng.random() < 0.35, rng.randrange(npk)))
     pkgs = []
     tid = 100
+    closures = []
     for k in range(npk):
-        imports = list(range(k))
+        # a random DAG: direct imports are a subset of the earlier packages; the driver hands over the facts of
+        # the transitive closure, in an order of its own choosing
+        if k > 0 and rng.random() < 0.35:
+            direct = [j for j in range(k) if rng.random() < 0.5]
+        else:
+            direct = list(range(k))
+        clo = set(direct)
+        for j in direct:
+            clo |= closures[j]
+        closures.append(clo)
+        imports = sorted(clo)
         rng.shuffle(imports)
-        vis = visible_sites(sites, k)
+        vis = visible_sites(sites, k, clo)
         local_params = [s[0] for s in sites if s[3] == k and s[2]]
         # controllers: a subset of the local call-site parameter sites
         ctrls = [s for s in local_params if rng.random() < 0.6]
@@ -91,6 +105,41 @@ def gen_random(rng, max_pkgs=3, max_sites=8, max_trigs=9, p_ctrl=0.2, p_annot=0.
                         ctrl = -1
                 trigs.append((tid, pk, ck, p, c, ctrl))
         pkgs.append(dict(imports=imports, annots=annots, trigs=trigs))
+    return Scenario(sites, pkgs)
+
+
+def gen_chain(rng):
+    """planted path: exported site -> k unexported sites -> exported site in package 0 (some edges possibly in a
+    middle package), with extra random edges; an importer plants a nil source and a dereference at the two ends"""
+    k = rng.randint(1, 6)
+    n = k + 2
+    sites = [(1, True, False, 0)] + [(i, False, rng.random() < 0.3, 0) for i in range(2, k + 2)] + [(n, True, False, 0)]
+    extra = rng.randint(0, 2)
+    for j in range(extra):
+        sites.append((n + 1 + j, rng.random() < 0.5, False, 0))
+    tid = 100
+    trigs = []
+    order = list(range(1, n))
+    rng.shuffle(order)
+    for i in order:                      # edges of the chain, observed in random order
+        tid += 1
+        trigs.append((tid, C, C, i, i + 1, -1))
+    for _ in range(rng.randint(0, 4)):   # noise
+        tid += 1
+        a, b = rng.choice(sites)[0], rng.choice(sites)[0]
+        trigs.append((tid, C, C, a, b, -1))
+    rng.shuffle(trigs)
+    pkgs = [dict(imports=[], annots=[], trigs=trigs)]
+    npk = rng.choice([2, 2, 3])
+    for j in range(1, npk - 1):          # a middle package that only forwards
+        pkgs.append(dict(imports=list(range(j)), annots=[], trigs=[]))
+    last = []
+    if rng.random() < 0.8:
+        last.append((tid + 1, A, C, 0, 1, -1))
+    if rng.random() < 0.8:
+        last.append((tid + 2, C, A, n, 0, -1))
+    rng.shuffle(last)
+    pkgs.append(dict(imports=list(range(npk - 1)), annots=[], trigs=last))
     return Scenario(sites, pkgs)
 
 
